@@ -20,6 +20,10 @@ inductive Rule where
   | counter (k : Nat) (off : Int)       -- (count + centre) mod k + off ; count += 1
   | nks (R : Nat)                       -- elementary / general binary NKS rule (binary cells only)
   | total (k : Nat) (R : Nat)           -- sum-based: digit of R at place k^sum (cells in 0..k-1)
+  | half (k : Nat) (a b off : Int) (s2 : Int)
+      -- the rule returns hash + 1/2, which is NOT representable in an integer dtype: assignment into the automaton
+      -- casts it (NumPy: truncation toward zero). `s2 = 0`: integer dtype; `s2 = scale/2 > 0`: float dtype, where
+      -- the value is stored exactly (in scaled units: + s2).
   deriving Repr
 
 def polyHash (a b : Int) (n : List Int) : Int :=
@@ -40,6 +44,9 @@ def Rule.eval (rl : Rule) (s : St) (n : List Int) (c t : Nat) : Int × St :=
   | .total k R =>
     let sum := n.foldl (· + ·) 0
     (((R / k ^ sum.toNat) % k : Nat), s')
+  | .half k a b off s2 =>
+    let h := polyHash a b n % (k : Int) + off
+    (if s2 = 0 then (if h ≥ 0 then h else h + 1) else h + s2, s')      -- trunc(h + 1/2) toward zero
 
 def Rule.toRule1 (rl : Rule) : Rule1 St Int := fun s n c t => rl.eval s n c t
 
@@ -50,6 +57,7 @@ def parseRule (s : String) : Option Rule :=
   | ["counter", k, off] => do pure (.counter (← k.toNat?) (← off.toInt?))
   | ["nks", r] => do pure (.nks (← r.toNat?))
   | ["total", k, r] => do pure (.total (← k.toNat?) (← r.toNat?))
+  | ["half", k, a, b, off, s2] => do pure (.half (← k.toNat?) (← a.toInt?) (← b.toInt?) (← off.toInt?) (← s2.toInt?))
   | _ => none
 
 /-- Stopping predicates. -/
